@@ -427,7 +427,21 @@ func (s *StubLab) Run(req *lab.RawRequest, p *Program, body []byte, deadline tim
 	if stale {
 		out, err, _ = s.run(req, p, body, deadline)
 	}
+	// the stub's own marker (599 "stub: no program armed") as the answer of THIS exchange means a stray request -
+	// the late first attempt of an earlier exchange on a stale keep-alive connection - took the program armed for
+	// it: a harness artefact; the exchange is played again, and the case is inconclusive if it keeps happening
+	for try := 0; try < 3 && strayTookProgram(out); try++ {
+		time.Sleep(time.Duration(20<<try) * time.Millisecond)
+		out, err, _ = s.run(req, p, body, deadline)
+	}
+	if strayTookProgram(out) {
+		return out, fmt.Errorf("harness: the stub had no program armed when the request of this exchange arrived (a stray request consumed it) - 4 attempts")
+	}
 	return out, err
+}
+
+func strayTookProgram(out *lab.RawResponse) bool {
+	return out != nil && out.Status == 599 && strings.Contains(string(out.Body), "stub: no program armed")
 }
 
 func (s *StubLab) run(req *lab.RawRequest, p *Program, body []byte, deadline time.Duration) (*lab.RawResponse, error, bool) {
